@@ -117,6 +117,11 @@ fn utf8(r: &mut Report, cfg: &Cfg) {
         if !cfg.mine(i) {
             continue;
         }
+        let ge = konst::string::from_utf8(b).map_err(|e| (e.0.valid_up_to(), e.0.error_len())).err();
+        let we = core::str::from_utf8(b).map_err(|e| (e.valid_up_to(), e.error_len())).err();
+        if ge != we {
+            r.fail("from_utf8.error", "from_utf8", format!("{:?}", b), format!("{:?}", ge), format!("{:?}", we));
+        }
         let g = konst::string::from_utf8(b).ok();
         let w = core::str::from_utf8(b).ok();
         r.ev(if w.is_some() { "from_utf8:Ok" } else { "from_utf8:Err" });
